@@ -265,6 +265,14 @@ func (f *RunningEventFilter) onReorg(writer db.KeyValueWriter) error {
 		return err
 	}
 
+	// A snapshot persisted before this revert describes blocks that are being replaced.
+	// Drop it in the same batch: otherwise, once the chain has grown back to the
+	// snapshot's height, an ungraceful restart would take it for current and event
+	// queries would miss the new blocks' events.
+	if err := writer.Delete(db.RunningEventFilter.Key()); err != nil {
+		return fmt.Errorf("deleting persisted running event filter: %w", err)
+	}
+
 	currRangeStart := f.inner.FromBlock()
 	curBlock := f.next - 1
 	// Falls into previous filter's range
